@@ -120,7 +120,7 @@ func runBehaviour(ctx *Ctx, b behaviour) {
 			ctx.Run.Count("programs_without_root_type", 1)
 			continue
 		}
-		m, err := refmodel.New(filesOf(p.Case), "s.json")
+		m, err := refmodel.New(filesOf(p.Case), sc.MainPath())
 		if err != nil {
 			harnessFail("model for %s: %v", sc.ID, err)
 		}
